@@ -232,6 +232,10 @@ def op_line(module, scn, op):
         return "D %d %s W" % (op["slot"], op["syn"])
     if a == "DecodeLit":
         return "D %d %s X%s" % (op["slot"], op["syn"], bytes(op["bytes"]).hex())
+    if a == "StartDecode":
+        return "SD %d %s X%s" % (op["slot"], op["syn"], bytes(op["bytes"]).hex())
+    if a == "DecodeCall":
+        return "DC %d" % op["avail"]
     if a == "Compare":
         return "C %d %d" % (op["s1"], op["s2"])
     if a == "Check":
